@@ -231,18 +231,18 @@ class Explorer:
                 if len(self.crashlog) < 20: self.crashlog.append({"case": list(case), "prefix": prefix, "rc": rc, "stderr": err[-3000:]})
 
 
-def cvc5_recheck(unks, timeout=60):
-    """second solver on inconclusive obligations: returns list of (unk, verdict)"""
-    res = []
-    for u in unks:
+def cvc5_recheck(unks, timeout=30):
+    """second solver on inconclusive obligations (run in parallel): returns list of (unk, verdict)"""
+    def one(u):
         q = u.get("query")
-        if not q or not os.path.exists(q): res.append((u, "noquery")); continue
+        if not q or not os.path.exists(q): return (u, "noquery")
         try:
             r = subprocess.run(["cvc5", "--tlimit=%d" % (timeout * 1000), q], stdout=subprocess.PIPE, stderr=subprocess.STDOUT, text=True, timeout=timeout + 10)
             out = r.stdout.strip().splitlines()
-            v = out[0] if out else "unknown"
+            v = out[0].strip() if out else "unknown"
             if "(error" in r.stdout: v = "error"
+            if v not in ("sat", "unsat", "unknown", "error"): v = "timeout" if "timeout" in v or "interrupted" in v else "unknown"
         except subprocess.TimeoutExpired:
             v = "timeout"
-        res.append((u, v))
-    return res
+        return (u, v)
+    with ThreadPoolExecutor(NPROC) as ex: return list(ex.map(one, unks))
